@@ -104,7 +104,7 @@ Qed.
 
 Lemma acn_nodead c (ok : N -> Prop) n w : CInv ok w -> NoDead (acn c n w).
 Proof.
-  intros (_ & _ & CH). unfold acn. destruct (t_kind c);
+  intros (_ & _ & CH & _). unfold acn. destruct (t_kind c);
     [apply append_slice_nodead|apply static_acn_nodead|apply tree_acn_nodead|].
   unfold hash_acn. destruct (hash_walk_nopanic (w_buf w) ok (w_hash w) CH (rev n) hash_root_pos) as ([position rest] & E).
   rewrite E. apply NoDead_bind; [apply hash_write_nodead|].
@@ -276,7 +276,7 @@ Proof.
   apply NoDead_bind; [apply append_slice_nodead|]. intros w3 _. apply IH.
 Qed.
 
-Lemma compose_opt_nodead c udp opts w : TBound w -> SInv c w -> NoDead (compose_opt c udp opts w).
+Lemma compose_opt_nodead c oh opts w : TBound w -> SInv c w -> NoDead (compose_opt c oh opts w).
 Proof.
   intros TB SI. unfold compose_opt.
   apply NoDead_bind; [apply append_slice_nodead|]. intros w1 E1.
@@ -287,10 +287,9 @@ Proof.
   pose proof (append_slice_mlen _ _ _ _ E2) as L2.
   change (mlen opt_header_default) with 9 in L1. change (mlen [0; 0]) with 2 in L2.
   assert (E02 : Ext c (mlen (w_buf w)) w w2) by (eapply Ext_trans; eauto; lia).
-  destruct (patch_spec c w w2 (mlen (w_buf w) + 3) udp TB2 SI2 E02) as (E3 & TB3 & SI3); [lia|lia|].
-  set (w3 := set_buf w2 (patch16 (mlen (w_buf w) + 3) udp (w_buf w2))) in *.
-  assert (L3 : mlen (w_buf w3) = mlen (w_buf w2)).
-  { subst w3. unfold set_buf; cbn [w_buf]. apply patch16_mlen. lia. }
+  destruct (opt_patches c w w2 (oh_udp oh) (oh_ext oh * 256 + oh_ver oh) (if oh_do oh then 32768 else 0) TB2 SI2 E02 ltac:(lia))
+    as (E3 & TB3 & SI3 & L3).
+  match goal with |- context [compose_opts c opts ?x] => set (w3 := x) in * end.
   pose proof (compose_opts_nodead c opts w3) as ND.
   pose proof (compose_opts_spec c opts w3 TB3 SI3) as H4.
   destruct (compose_opts c opts w3) as [w4|w4| |]; try contradiction.
@@ -319,17 +318,18 @@ Proof.
   intros HB HCt HL (Hwf & Hsz). pose proof HB as (TB & SI & L12 & _).
   pose proof HL as (_ & HC & _).
   assert (HW : WG c ok12 (b_w s)) by (split; [exact TB|split; [exact SI|exact HC]]).
-  destruct o as [q|rr|udp opts| | | |l]; cbn [step]; cbn [wf_op] in Hwf.
+  unfold step. destruct o as [q|rr|oh opts| | | |l|h]; cbn [step_gen]; cbn [wf_op] in Hwf.
   - destruct (b_sec s =? 0); [|reflexivity].
     apply mb_push_alive; auto; [apply compose_question_spec|apply compose_question_nodead; auto].
   - destruct (b_sec s =? 0); [reflexivity|].
     apply mb_push_alive; auto; [apply compose_record_spec|apply compose_record_nodead; auto].
-  - destruct (b_sec s =? 3); [|reflexivity].
+  - destruct (b_sec s =? 3); [|reflexivity]. cbn [snd].
     apply mb_push_alive; auto; [apply compose_opt_spec|apply compose_opt_nodead; auto].
   - destruct (b_sec s <? 3); reflexivity.
   - destruct (b_sec s =? 0); [reflexivity|].
     destruct (rewind_inv c s HB) as (w & _ & ER & _). rewrite ER. reflexivity.
   - destruct (rewind_inv c s HB) as (w & _ & ER & _). rewrite ER. reflexivity.
+  - reflexivity.
   - reflexivity.
 Qed.
 
@@ -437,19 +437,22 @@ Theorem push_ok_below_limit c ops s0 s a ws o s' l :
 Proof.
   intros HI HR AL HS Hl. destruct (init_inv c s0 HI) as (HB0 & HC0).
   destruct (run_acc_inv c ops s0 acc0 s a ws HB0 HC0 HR AL) as (HB & _).
-  assert (X : forall f, WSpec c f -> mb_push c s f = (s', ROk) -> mlen (w_buf (b_w s')) < l).
-  { intros f Hf E. destruct (mb_push_cases c s f HB Hf) as [(w' & _ & E' & _ & _ & _ & LH & _)|[(e' & E')|(x & E' & D)]];
+  assert (X : forall f s1, WSpec c f -> mb_push c s f = (s1, ROk) -> mlen (w_buf (b_w s1)) < l).
+  { intros f s1 Hf E. destruct (mb_push_cases c s f HB Hf) as [(w' & _ & E' & _ & _ & _ & LH & _)|[(e' & E')|(x & E' & D)]];
       rewrite E' in E; try discriminate.
     - injection E as <-. destruct (upd_proj s w' (count_of s + 1)) as (P0 & _). rewrite P0.
       rewrite Hl in LH. unfold limit_hit, limit_cmp_ge in LH. apply N.leb_gt in LH. exact LH.
     - injection E as _ Ex. subst x. discriminate D. }
-  destruct o as [q|rr|udp opts| | | |l0]; cbn [step] in HS.
+  unfold step in HS. destruct o as [q|rr|oh opts| | | |l0|h]; cbn [step_gen] in HS.
   - destruct (b_sec s =? 0); [|discriminate]. eapply X; [apply compose_question_spec|exact HS].
   - destruct (b_sec s =? 0); [discriminate|]. eapply X; [apply compose_record_spec|exact HS].
-  - destruct (b_sec s =? 3); [|discriminate]. eapply X; [apply compose_opt_spec|exact HS].
+  - destruct (b_sec s =? 3); [|discriminate].
+    destruct (mb_push c s (compose_opt c oh opts)) as [s1 r1] eqn:EM. cbn [fst snd] in HS.
+    injection HS as <- ->. unfold set_hdr; cbn [b_w]. eapply X; [apply compose_opt_spec|exact EM].
   - destruct (b_sec s <? 3); discriminate.
   - destruct (b_sec s =? 0); [discriminate|]. destruct (rewind c s); discriminate.
   - destruct (rewind c s); discriminate.
+  - discriminate.
   - discriminate.
 Qed.
 
@@ -463,7 +466,8 @@ Definition ex_ops : list op :=
    OpLimit (Some 50); OpR (mkR ex_name1 1 1 5 false [RBytes [1;2;3;4]]); OpLimit None;
    OpNext; OpR (mkR ex_name1 2 1 5 false [RName ex_name2]); OpRewind;
    OpR (mkR [] 6 1 5 true [RName ex_name2; RNameU ex_name1; RBytes [0;0;0;1]]);
-   OpNext; OpOpt 1232 [(10, 8, [1;2;3;4;5;6;7;8])]].
+   OpHdr [171; 205; 129; 128];
+   OpNext; OpOpt (mkOH 1232 (Some 4083) 200 true) [(10, 8, [1;2;3;4;5;6;7;8])]].
 
 Lemma ex_ops_wf : Forall wf_op_sized ex_ops.
 Proof.
@@ -474,7 +478,7 @@ Proof.
   assert (N1 : name_ok ex_name1) by (split; [repeat constructor; apply V; reflexivity|cbn; lia]).
   assert (N2 : name_ok ex_name2) by (split; [repeat constructor; apply V; reflexivity|cbn; lia]).
   assert (N0 : name_ok []) by (split; [constructor|cbn; lia]).
-  unfold ex_ops. repeat constructor; cbn [wf_op wf_q wf_r q_name q_type q_class r_owner r_type r_class r_ttl r_data wf_item];
+  unfold ex_ops. repeat constructor; cbn [wf_op wf_q wf_r wf_oh oh_udp oh_ver q_name q_type q_class r_owner r_type r_class r_ttl r_data wf_item]; unfold wf_oh; cbn [oh_udp oh_ver];
     auto; try lia; try exact I; repeat constructor; auto; try lia; try exact I; cbn; try lia.
 Qed.
 
@@ -482,9 +486,28 @@ Example build_parse_example :
   let c := mkCfg None true KHash in
   match c02_run c ex_ops with
   | Some (s, a, ws) =>
-      ws = [ROk; RNone; ROk; RNone; RErr E_LIMIT; RNone; RNone; ROk; RNone; ROk; RNone; ROk] /\
+      ws = [ROk; RNone; ROk; RNone; RErr E_LIMIT; RNone; RNone; ROk; RNone; ROk; RNone; RNone; ROk] /\
+      firstn 4 (msg_of s) = [171; 205; 129; 131] /\
       length (a_q a) = 1%nat /\ length (a_an a) = 1%nat /\ length (a_ns a) = 1%nat /\ length (a_ar a) = 1%nat /\
       c02_reread s a = true /\ mlen (stream_of s) = mlen (msg_of s) + 2
+  | None => False
+  end.
+Proof. vm_compute. repeat split; reflexivity. Qed.
+
+(* were AdditionalBuilder::opt not to put the header RCODE back (the code
+   before the fix), a failed OPT push would leave header octet 3 changed:
+   additional section, push limit 20, opt(|o| o.set_rcode(0xABC)) *)
+Example failed_opt_push_refuted :
+  let c := mkCfg None false KNone in
+  match init c with
+  | Some s0 =>
+      let s1 := fst (step_gen false c s0 OpNext) in
+      let s2 := fst (step_gen false c s1 OpNext) in
+      let s3 := fst (step_gen false c (fst (step_gen false c s2 OpNext)) (OpLimit (Some 20))) in
+      let r := step_gen false c s3 (OpOpt (mkOH 1232 (Some 2748) 0 false) []) in
+      snd r = RErr E_LIMIT /\ firstn 4 (msg_of s3) = [0; 0; 0; 0] /\ firstn 4 (msg_of (fst r)) = [0; 0; 0; 12] /\
+      snd (step_gen true c s3 (OpOpt (mkOH 1232 (Some 2748) 0 false) [])) = RErr E_LIMIT /\
+      fst (step_gen true c s3 (OpOpt (mkOH 1232 (Some 2748) 0 false) [])) = s3
   | None => False
   end.
 Proof. vm_compute. repeat split; reflexivity. Qed.
